@@ -194,7 +194,7 @@ func main() {
 		"soundness direction is decisive (pass only if contained); 'contained but rejected' is counted as a completeness observation, not a violation, except across renderings of the same identity list (metamorphic) and for the wildcard",
 		"subjects with empty attribute values are not generated (whether they are 'interpretable' is not stated)"}
 	n := r.N(4000, 300000)
-	vals := []string{"US", "WA", "Org", "a,b", "x+y", `q"r`, `b\s`, "<t>", "s;t", " lead", "trail ", "#hash", "a=b", "Ünï", "A", "Org2", "DE", "x", "o u", "svc:prod", ":lead", "a:b:c", "svc"}
+	vals := []string{"US", "WA", "Org", "a,b", "x+y", `q"r`, `b\s`, "<t>", "s;t", " lead", "trail ", "#hash", "a=b", "Ünï", "A", "Org2", "DE", "x", "o u", "svc:prod", ":lead", "a:b:c", "svc", "Rel  Sig", "Rel Sig", "a   b c", "two  runs  here"}
 	types := []string{"C", "ST", "O", "OU", "CN", "L", "STREET", "SERIALNUMBER", "POSTALCODE"}
 	rootAttrs := []av{{"C", "US"}, {"ST", "WA"}, {"O", "RootOrg"}, {"CN", "root"}}
 	interAttrs := []av{{"C", "US"}, {"ST", "WA"}, {"O", "InterOrg"}, {"OU", "issuing"}}
@@ -273,7 +273,18 @@ func main() {
 			c.Shape = "near-miss"
 			s := append([]av(nil), base...)
 			k := rng.Intn(len(s))
-			switch rng.Intn(4) {
+			for try := 0; try < 3 && !strings.Contains(s[k].V, " "); try++ { // (prefer an attribute whose value holds a blank, if there is one)
+				k = rng.Intn(len(s))
+			}
+			switch rng.Intn(6) {
+			case 4:
+				if strings.Contains(s[k].V, "  ") {
+					s[k].V = strings.Replace(s[k].V, "  ", " ", 1) // a run of blanks shortened by one: another value
+				} else {
+					s[k].V = strings.Replace(s[k].V, " ", "  ", 1) // ... or a blank doubled (no blank: the value stays, the case is 'exact')
+				}
+			case 5:
+				s[k].V = strings.Replace(s[k].V, " ", "   ", 1)
 			case 0:
 				s[k].V = s[k].V[:len(s[k].V)-1] // may become empty
 			case 1:
@@ -325,7 +336,7 @@ func main() {
 				// value happens to read like the leaf's subject: not an x509.subject identity
 				exactDN := strings.TrimPrefix(render(base, rng, 0), "x509.subject:")
 				c.Shape = "non-x509-only-lookalike-prefix"
-				c.Extra = []string{[]string{"X509.Subject:", "x509.Subject:", "X509.SUBJECT:", "x509.subjects:", "x509.subject.v2:", "x509subject:"}[rng.Intn(6)] + exactDN}
+				c.Extra = []string{[]string{"X509.Subject:", "x509.Subject:", "X509.SUBJECT:", "x509.subjects:", "x509.subject.v2:", "x509subject:", "*:", "*:x509.subject:", "*:team-a,"}[rng.Intn(9)] + exactDN}
 			}
 		case 9:
 			if rng.Bool() {
